@@ -217,3 +217,68 @@ func VerifC06_RefreshedEnvironment() {
 // static group.
 // cover: first-sprint, second-sprint, blocked-contact
 func VerifC06_SprintActions() { verifSprintActions(true) }
+
+// VerifC06_ContactTimezone: the contact's own timezone is part of the
+// environment a session evaluates in (the merged environment: dates in
+// queries are compared by calendar day in it).  A contact created at 20:00Z, with no timezone of its own or one in which that instant falls on
+// another calendar day, and a group on `created_on = <that UTC day>`: whenever
+// the engine hands back the session — after the trigger, after a name-changing
+// action before the wait, after the resume — membership is what the query
+// gives in the session's merged environment, the same at every hand-back (the
+// contact does not change in any way the query can see), and the
+// contact_groups_changed events add up.
+// cover: no-timezone, other-calendar-day, action-before-wait, resumed, member, not-member
+func VerifC06_ContactTimezone() {
+	env := envs.NewBuilder().Build()
+	sa := verifNewAssets()
+	sa.fields = flows.NewFieldAssets(nil)
+	var tz *time.Location
+	if zzverif.Choice("contact-timezone", 2) == 1 {
+		tz, _ = time.LoadLocation("Asia/Tokyo") // 20:00Z is 05:00 of the next day there
+		zzverif.Assert(tz != nil, "setup: zone not loaded")
+		zzverif.Cover("other-calendar-day")
+	} else {
+		zzverif.Cover("no-timezone")
+	}
+	created := time.Date(2024, 1, 1, 20, 0, 0, 0, time.UTC)
+	sa.groups = flows.VerifGroupAssetsOf(env, sa.fields)
+	contact, cerr := flows.NewContact(sa, "5d76d86b-3bb9-4d5a-b822-c9d86f5d8e4f", 0, "Bob", "eng", flows.ContactStatusActive, tz, created, nil, nil, nil, nil, nil, assets.IgnoreMissing)
+	zzverif.Assert(cerr == nil, "setup: contact not created")
+	gDay := flows.VerifQueryGroup(env, sa.fields, "g-day", "Created that day", contactql.NewCondition(contactql.PropertyTypeAttribute, contactql.AttributeCreatedOn, contactql.OpEqual, created.Format("2006-01-02")))
+	zzverif.Assert(gDay != nil, "query group did not validate")
+	var groups []*flows.Group
+	sa.groups, groups = flows.VerifGroupAssets(env, sa.fields, gDay)
+	if zzverif.Choice("member-of-group", 2) == 1 {
+		contact.Groups().Add(groups[0])
+	}
+	var acts0 []flows.Action
+	if zzverif.Choice("set-name-before-wait", 2) == 1 {
+		acts0 = append(acts0, actions.NewSetContactName("a0", "Jim"))
+		zzverif.Cover("action-before-wait")
+	}
+	cats := []flows.Category{routers.NewCategory("c0", "All", "e0")}
+	router := routers.NewSwitch(waits.NewMsgWait(nil, nil), "", cats, "x", nil, "c0")
+	n0 := definition.NewNode("f0n0", acts0, router, []flows.Exit{definition.NewExit("e0", "f0n1")})
+	n1 := definition.NewNode("f0n1", []flows.Action{actions.NewSetContactName("a1", "Joe")}, nil, []flows.Exit{definition.NewExit("e1", "")})
+	f, err := definition.NewFlow(verifFlowUUID(0), "F0", "eng", flows.FlowTypeMessaging, 1, 10, definition.NewLocalization(), []flows.Node{n0, n1}, nil, nil)
+	zzverif.Assert(err == nil, "flow did not validate")
+	sa.add(f)
+
+	before := verifGroupView(contact, groups)
+	sess, sp, err := verifEngine(10, 10).NewSession(sa, verifManualTrigger(sa, contact))
+	zzverif.Assert(err == nil, "NewSession failed")
+	verifCheckGroups(sess.MergedEnvironment(), sess.Contact(), groups, before, sp)
+	first := sess.Contact().Groups().FindByUUID("g-day") != nil
+	if first {
+		zzverif.Cover("member")
+	} else {
+		zzverif.Cover("not-member")
+	}
+	zzverif.Assert(sess.Status() == flows.SessionStatusWaiting, "setup: session not waiting")
+	before = verifGroupView(sess.Contact(), groups)
+	sp, err = sess.Resume(verifResume(0))
+	zzverif.Assert(err == nil, "Resume failed")
+	zzverif.Cover("resumed")
+	verifCheckGroups(sess.MergedEnvironment(), sess.Contact(), groups, before, sp)
+	zzverif.Assert((sess.Contact().Groups().FindByUUID("g-day") != nil) == first, "membership of a group whose query the contact matches in the same way changed between two hand-backs")
+}
